@@ -246,9 +246,20 @@ impl<T: 'static+Send> Desync<T> {
     }
 }
 
+#[cfg(desync_verif)]
+impl<T: Send> Desync<T> {
+    /// Verification hook: the Debug text of this object's job queue (used to describe failures only)
+    pub fn verif_queue_debug(&self) -> String {
+        format!("{:?}", self.queue)
+    }
+}
+
 impl<T: Send> Drop for Desync<T> {
     fn drop(&mut self) {
+        #[cfg(not(desync_verif))]
         use std::thread;
+        #[cfg(desync_verif)]
+        use vsched::thread;
 
         // Take the data we're about to drop from the object
         let data = DataRef::<T>(self.data);
